@@ -59,11 +59,41 @@ func ReadResponseScope(resp *dns.Msg) (netip.Prefix, bool) {
 		default:
 			return netip.Prefix{}, false
 		}
-		prefix, err := addr.Prefix(int(sub.SourceScope))
+		// A SCOPE longer than the family's addresses cannot be more specific
+		// than the whole address: read it as that. Policy.ClampScope then
+		// cuts it down to what was forwarded, exactly as it does for any
+		// other SCOPE > SOURCE. Rejecting it here made the caller treat a
+		// tailored answer as a global one and share it with every client.
+		bits := int(sub.SourceScope)
+		if bits > addr.BitLen() {
+			bits = addr.BitLen()
+		}
+		prefix, err := addr.Prefix(bits)
 		if err != nil {
 			return netip.Prefix{}, false
 		}
 		return prefix, true
 	}
 	return netip.Prefix{}, false
+}
+
+// DeclaresScope reports whether the response's OPT carries a client-subnet
+// option with a non-zero SCOPE, usable or not. An answer for which this is
+// true and ReadResponseScope is not was tailored to somebody by an authority
+// whose option cannot be interpreted (family and address disagree, unknown
+// family, unusable address): it must not be shared.
+func DeclaresScope(resp *dns.Msg) bool {
+	if resp == nil {
+		return false
+	}
+	opt := resp.IsEdns0()
+	if opt == nil {
+		return false
+	}
+	for _, o := range opt.Option {
+		if sub, ok := o.(*dns.EDNS0_SUBNET); ok {
+			return sub.SourceScope != 0
+		}
+	}
+	return false
 }
